@@ -12,7 +12,7 @@ for n in "${names[@]}"; do
   res=""
   for id in $ids; do
     out=$(VERIF_SEED=${VERIF_SEED:-1} ./check $id ${TIER:-quick} 2>&1); rc=$?
-    rule=$(echo "$out" | grep -m1 -o 'rule=[^ ]*' )
+    rule=$(echo "$out" | grep -v KNOWN-FINDING | grep -m1 -o 'rule=[^ ]*' )
     if [ $rc -eq 1 ]; then res="$res $id:CAUGHT($rule)"; elif [ $rc -eq 0 ]; then res="$res $id:missed"; else res="$res $id:rc$rc"; fi
   done
   git -C /repo checkout -- .
